@@ -186,6 +186,7 @@ fn huge_amounts(run: &Run, thorough: bool) {
 }
 
 pub fn run(run: &Run) {
+    long_histories(run, run.thorough());
     // withdrawals of liquidity tokens the built-in pools never issued (faucet-minted; C16's scenario): whatever is settled, the
     // payouts come out of the reserves
     crate::props::c16::unissued_liquidity_tokens(run, run.thorough());
